@@ -91,6 +91,10 @@ type Run struct {
 	switches      int
 	listenOpts    map[string]LinkOpts
 	tearing       bool
+	// Post runs after the bubble has ended, outside of it (real clock, real goroutines): used for
+	// history checks such as porcupine that must not run on the fake clock.
+	Post func()
+	seq  int64
 	repoSwitches  int
 }
 
@@ -134,6 +138,9 @@ func (r *Run) Violate(property, oracle, class, format string, a ...interface{}) 
 	r.violations = append(r.violations, v)
 	r.Event("VIOLATION %s", v.Key())
 }
+
+// Stamp returns the next global event sequence number (history timestamps).
+func (r *Run) Stamp() int64 { r.seq++; return r.seq }
 
 // OnStep registers a hook that the scheduler calls before every scheduling decision; it returns
 // true once it is spent.
@@ -406,6 +413,10 @@ func Execute(t *testing.T, spec RunSpec) (res RunResult) {
 			r.teardown()
 		})
 	}()
+	if r != nil && r.Post != nil && res.BubblePanic == "" {
+		r.tearing = false
+		r.Post()
+	}
 	if r != nil {
 		res.Hash = r.hash
 		res.Steps = r.S.Steps
